@@ -22,7 +22,8 @@ struct vs_thread {
 	int kind; const void *addr;  /* pending operation */
 	int sleeping; unsigned long sleep_version;   /* disabled until the write version changes */
 	unsigned long last_seen;                     /* write version at the thread's latest load */
-	int ro_streak;
+	unsigned long yield_version;                 /* write version at the thread's previous yield */
+	int ro_streak; unsigned long streak_version;  /* consecutive loads while nobody wrote anything */
 	int nlocks;
 	void (*fn)(void *); void *arg;
 	jmp_buf jb;
@@ -70,6 +71,7 @@ static int enabled(int t) {
 	if(T[t].state != 1) return 0;
 	if(T[t].sleeping && T[t].sleep_version == write_version) return 0;
 	if(T[t].kind == VS_LOCK && lock_owner(T[t].addr) >= 0) return 0;
+	if(T[t].kind == VS_WAITFLAG && *(volatile const int *)T[t].addr == 0) return 0;
 	return 1;
 }
 
@@ -142,12 +144,19 @@ static int pick_next(int me) {
 	case VS_STORE: case VS_RMW: write_version++; x->ro_streak = 0; x->last_seen = write_version; break;
 	case VS_LOAD:
 		x->last_seen = write_version;
+		if(x->streak_version != write_version) { x->streak_version = write_version; x->ro_streak = 0; }
 		if(++x->ro_streak >= ro_limit) { x->sleeping = 1; x->sleep_version = write_version; x->ro_streak = 0; vs_tr.auto_yields++; }
 		break;
-	case VS_PAUSE: case VS_YIELD:
-		/* the thread saw a value it does not like: it is not scheduled again until somebody writes */
-		/* ... after the load that showed it that value (a write since then wakes it at once) */
+	case VS_PAUSE:
+		/* the thread saw a value it does not like: it is not scheduled again until somebody writes
+		 * after the load that showed it that value (a write since then wakes it at once) */
 		x->sleeping = 1; x->sleep_version = x->last_seen; break;
+	case VS_YIELD:
+		/* end of an unsuccessful loop iteration: if nobody (including the thread itself) has written
+		 * anything since its previous yield, the next iteration would see exactly the same state, so
+		 * the thread waits for a write; otherwise it may go on */
+		if(write_version == x->yield_version) { x->sleeping = 1; x->sleep_version = write_version; }
+		x->yield_version = write_version; break;
 	default: break;
 	}
 	x->state = 2;
